@@ -59,7 +59,12 @@ func NewSlidingWindowMetric(sampleCount, intervalInMs uint32, real *BucketLeapAr
 func (m *SlidingWindowMetric) getBucketStartRange(timeMs uint64) (start, end uint64) {
 	curBucketStartTime := calculateStartTime(timeMs, m.real.BucketLengthInMs())
 	end = curBucketStartTime
-	start = end - uint64(m.intervalInMs) + uint64(m.real.BucketLengthInMs())
+	span := uint64(m.intervalInMs) - uint64(m.real.BucketLengthInMs())
+	if end < span {
+		// The window would begin before time zero: clamp instead of wrapping around.
+		return 0, end
+	}
+	start = end - span
 	return
 }
 
